@@ -101,7 +101,14 @@ pub fn count_any() -> BS<i128> {
             .boxed()),
         // uniform over the full range
         (1, (DMIN..=DMAX).boxed()),
+        // +-2^k +- a few ns: where integer widths (2^31, 2^32, 2^53, 2^63, 2^64 ...) change hands
+        (2, pow2_near(78, 3)),
     ])
+}
+
+/// +-2^k + d with k < max_bits and |d| <= spread (ns)
+pub fn pow2_near(max_bits: u32, spread: i128) -> BS<i128> {
+    (0..max_bits, any::<bool>(), -spread..=spread).prop_map(|(k, s, d)| clamp((if s { -(1i128 << k) } else { 1i128 << k }) + d)).boxed()
 }
 
 /// durations as constructor parts: canonical parts of `count_any` plus raw (i16, u64) pairs
@@ -132,6 +139,8 @@ pub fn count_human() -> BS<i128> {
         (2, (any::<bool>(), 104i128..3_652_425, 0i128..NS_D).prop_map(|(s, d, t)| { let v = d * NS_D + t; if s { -v } else { v } }).boxed()),
         (1, (-5i128..=5).boxed()),
         (1, (any::<bool>(), 0i128..1_000_000_000_000).prop_map(|(s, v)| if s { -v } else { v }).boxed()),
+        // +-2^k +- a few ns (2^53: where a float stops holding every nanosecond count; 2^63, 2^64: integer widths)
+        (1, pow2_near(68, 3)),
     ])
 }
 
@@ -270,6 +279,8 @@ pub fn tai_count_any() -> BS<i128> {
         (1, (days_1900(1958, 1, 1) as i128 * NS_D..days_1900(1972, 1, 2) as i128 * NS_D).boxed()),
         // century boundaries of the count
         (1, (-90i128..=90, small_delta(3)).prop_map(|(k, d)| k * NPC + d).boxed()),
+        // +-2^k ns from 1900, +-40 s: where 64-bit nanosecond counts end (2^63 ns = 2192-04-11, 2^64 ns = 2484)
+        (1, (40u32..70, any::<bool>(), near_offset()).prop_map(|(k, s, off)| (if s { -(1i128 << k) } else { 1i128 << k }) + off).boxed()),
         // within two days of a century boundary of the count (views shifted by a constant cross it elsewhere)
         (1, (-90i128..=90, -2 * NS_D..=2 * NS_D).prop_map(|(k, d)| k * NPC + d).boxed()),
         // sampled years to +-30 000
